@@ -54,6 +54,16 @@ def build_sigs(np, spec, dtype):
 	return out
 
 
+def _as_index(np, idx, how):
+	if how in (None, 'list'):
+		return list(idx)
+	if how == 'tuple':
+		return tuple(idx)
+	if how == 'array':
+		return np.array(idx, dtype=np.intp)
+	return np.array(idx, dtype=how)
+
+
 def run_case(case, ctx):
 	import numpy as np
 	from gambit.kmers import KmerSpec
@@ -76,6 +86,15 @@ def run_case(case, ctx):
 	elif cont == 'array_i4bounds':
 		tmp = SignatureArray(refs, kspec, dtype=np.dtype(rdt))
 		rc = SignatureArray.from_arrays(tmp.values, tmp.bounds.astype('i4'), kspec)
+	elif cont in ('array_window', 'hdf5_window'):
+		# zero-copy window into a larger array: bounds[0] != 0 (legal: signature i is values[bounds[i]:bounds[i+1]])
+		pad = [np.array([3, 9, 11], dtype=rdt), np.array([4], dtype=rdt)]
+		big = SignatureArray(pad + refs + pad, kspec, dtype=np.dtype(rdt))
+		rc = SignatureArray.from_arrays(big.values, big.bounds[2:2 + n + 1], kspec)
+		if cont == 'hdf5_window':
+			path = ctx.fresh_path('.gs')
+			dump_signatures(path, rc)
+			rc = h5 = load_signatures(path)
 	elif cont == 'list':
 		rc = SignatureList(refs, kspec, dtype=np.dtype(rdt))
 	elif cont == 'pylist':
@@ -102,7 +121,7 @@ def run_case(case, ctx):
 
 	func = case['func']
 	threads = case['threads']
-	repeats = case['repeats'] if cont in ('array', 'array_i4bounds', 'hdf5') else 1
+	repeats = case['repeats'] if cont in ('array', 'array_i4bounds', 'hdf5', 'array_window', 'hdf5_window') else 1
 	sentinel = np.float32(-7.25)
 	classes = [f'func={func}', f'container={cont}', f'threads={"1" if threads == 1 else "2-4" if threads <= 4 else "5-16"}',
 	           f'rdt={rdt}', 'mixed_dtype' if rdt[1] != qdt[1] else 'same_width']
@@ -159,7 +178,7 @@ def run_case(case, ctx):
 				if ri is not None:
 					ri = [i % n for i in ri] if n else []
 					sel = ri
-					ri_arg = np.array(ri, dtype=np.intp) if case.get('indices_as') == 'array' else list(ri)
+					ri_arg = _as_index(np, ri, case.get('indices_as'))
 				else:
 					sel = list(range(n))
 					ri_arg = None
@@ -190,7 +209,7 @@ def run_case(case, ctx):
 				if ind is not None:
 					ind = [i % n for i in ind] if n else []
 					sel = ind
-					ind_arg = np.array(ind, dtype=np.intp) if case.get('indices_as') == 'array' else list(ind)
+					ind_arg = _as_index(np, ind, case.get('indices_as'))
 				else:
 					sel = list(range(n))
 					ind_arg = None
@@ -277,12 +296,12 @@ def bulk_case(draw, tier):
 		'queries': queries,
 		'ref_dtype': draw(st.sampled_from(['u2', 'u4', 'u8', 'i2', 'i4', 'i8'])),
 		'q_dtype': draw(st.sampled_from(['u4', 'u2', 'u8', 'i8'])),
-		'container': draw(st.sampled_from(['array', 'list', 'pylist', 'hdf5', 'array_i4bounds', 'array'])),
+		'container': draw(st.sampled_from(['array', 'list', 'pylist', 'hdf5', 'array_i4bounds', 'array', 'array_window', 'hdf5_window'])),
 		'q_container': draw(st.sampled_from(['list', 'array'])),
 		'func': func,
 		'chunksize': draw(st.one_of(st.none(), st.integers(1, n + 1), st.just(1000), st.just(1), st.just(2))),
 		'indices': draw(idx),
-		'indices_as': draw(st.sampled_from(['list', 'array'])),
+		'indices_as': draw(st.sampled_from(['list', 'array', 'int32', 'uint8', 'int64', 'uint64', 'list'])),
 		'out': draw(st.sampled_from(['none', 'fresh', 'strided'])),
 		'threads': draw(st.one_of(st.integers(2, 16), st.sampled_from([16, 2, 1, 3]), st.integers(1, 16))),
 		'repeats': 3 if tier == 'quick' else 20,
